@@ -24,7 +24,11 @@ def weakenings_of_word(rng, width, usage):
              "bool": ["bytes", "bool"], "selector": ["bytes", "selector"], "function": ["bytes", "function"]}[usage]
     u = rng.choice(below)
     if u in uf.FIXED_WIDTH:
-        w = uf.FIXED_WIDTH[u]
+        # usually at its native width; sometimes with the width left unknown (constructible evidence that no inference
+        # rule emits: TE::word(None, WordUse::Address)), which must not override a width known from elsewhere
+        w = uf.FIXED_WIDTH[u] if (width == uf.FIXED_WIDTH[u] or rng.random() < 0.5) else None
+        if width != uf.FIXED_WIDTH[u]:
+            w = None if rng.random() < 0.5 else width
     else:
         w = width if rng.random() < 0.5 else None
     return ["word", w, u]
@@ -48,6 +52,10 @@ def gen(rng):
             usage = rng.choice(uf.USAGES)
             info["usage"] = usage
             info["width"] = uf.FIXED_WIDTH.get(usage, rng.choice(WIDTHS))
+            if usage in uf.FIXED_WIDTH and rng.random() < 0.15:
+                # a sized usage observed at a width other than its native one (evidence never uses the native-width
+                # constructor for this class)
+                info["width"] = rng.choice([w for w in WIDTHS if w is not None and w != uf.FIXED_WIDTH[usage]])
         classes.append(info)
     # component variables are word classes of their own (single member)
     for info in classes:
